@@ -64,6 +64,27 @@ pub struct Ctor {
     pub try_from: fn(&[i64]) -> Option<Tf>,
     pub product: fn(&[i64], &[i64], &[i64]) -> Option<Box<dyn ArrDyn>>,
     pub indexes_log: fn() -> Vec<i64>,
+    /// labelled rank 2 / 3: `from_multi_iter` on a nested input given by its nesting (see `nested_input`)
+    pub from_nested: fn(&[i64]) -> Option<Box<dyn ArrDyn>>,
+}
+
+/// A nested input from its description: rank 2 = [number of rows, then the length of each row]; rank 3 = [number of
+/// slabs, then for each slab the number of its rows followed by their lengths].  The cells are 1, 2, 3, ... in order.
+pub fn nested_rows(spec: &[i64], p: &mut usize, next: &mut i64) -> Vec<Vec<i64>> {
+    let n = spec[*p].max(0) as usize;
+    *p += 1;
+    let mut rows = Vec::new();
+    for _ in 0..n {
+        let len = spec[*p].max(0) as usize;
+        *p += 1;
+        let mut r = Vec::new();
+        for _ in 0..len {
+            r.push(*next);
+            *next += 1;
+        }
+        rows.push(r);
+    }
+    rows
 }
 
 pub const RUNAWAY: i64 = -4;
@@ -381,6 +402,7 @@ pub fn ctor_u1<const K0: usize>() -> Ctor {
         },
         product: |_, _, _| None,
         indexes_log: || drain_indexes(<MArr1<i64, K0> as Indexes<[usize; 1]>>::indexes(), |k| k.to_vec()),
+        from_nested: |_| None,
     }
 }
 pub fn ctor_u2<const K0: usize, const K1: usize>() -> Ctor {
@@ -404,6 +426,7 @@ pub fn ctor_u2<const K0: usize, const K1: usize>() -> Ctor {
             Some(Box::new(MArr2::<i64, K0, K1>::product2(&a0, &a1)))
         },
         indexes_log: || drain_indexes(<MArr2<i64, K0, K1> as Indexes<[usize; 2]>>::indexes(), |k| k.to_vec()),
+        from_nested: |_| None,
     }
 }
 pub fn ctor_u3<const K0: usize, const K1: usize, const K2: usize>() -> Ctor {
@@ -432,6 +455,7 @@ pub fn ctor_u3<const K0: usize, const K1: usize, const K2: usize>() -> Ctor {
             Some(Box::new(MArr3::<i64, K0, K1, K2>::product3(&a0, &a1, &a2)))
         },
         indexes_log: || drain_indexes(<MArr3<i64, K0, K1, K2> as Indexes<[usize; 3]>>::indexes(), |k| k.to_vec()),
+        from_nested: |_| None,
     }
 }
 
@@ -598,6 +622,7 @@ pub fn ctor_l1<D0: HasSibling + 'static>() -> Ctor {
         },
         product: |_, _, _| None,
         indexes_log: || drain_indexes(<MArrD1<D0, i64> as Indexes<D0::Idx>>::indexes(), |k| vec![xi::<D0>(k)]),
+        from_nested: |_| None,
     }
 }
 pub fn ctor_l2<D0: Domain + 'static, D1: Domain + 'static>() -> Ctor {
@@ -631,6 +656,11 @@ pub fn ctor_l2<D0: Domain + 'static, D1: Domain + 'static>() -> Ctor {
             drain_indexes(<MArrD2<D0, D1, i64> as Indexes<(D0::Idx, D1::Idx)>>::indexes(), |k| {
                 vec![xi::<D0>(k.0), xi::<D1>(k.1)]
             })
+        },
+        from_nested: |spec| {
+            let (mut p, mut next) = (0, 1);
+            let rows = nested_rows(spec, &mut p, &mut next);
+            Some(Box::new(MArrD2::<D0, D1, i64>::from_multi_iter(rows)))
         },
     }
 }
@@ -672,6 +702,14 @@ pub fn ctor_l3<D0: Domain + 'static, D1: Domain + 'static, D2: Domain + 'static>
                 <MArrD3<D0, D1, D2, i64> as Indexes<(D0::Idx, D1::Idx, D2::Idx)>>::indexes(),
                 |k| vec![xi::<D0>(k.0), xi::<D1>(k.1), xi::<D2>(k.2)],
             )
+        },
+        from_nested: |spec| {
+            let (mut p, mut next) = (1, 1);
+            let mut slabs = Vec::new();
+            for _ in 0..spec[0].max(0) {
+                slabs.push(nested_rows(spec, &mut p, &mut next));
+            }
+            Some(Box::new(MArrD3::<D0, D1, D2, i64>::from_multi_iter(slabs)))
         },
     }
 }
@@ -893,6 +931,13 @@ pub fn run(c: &Case) -> String {
         let r = guarded(|| arr.iter_vals());
         ADAPT.with(|a| a.set((0, 0)));
         Ok(r.unwrap_or_else(|| vec![PANIC]))
+    } else if c.op == "arr_nested" {
+        // numbers: the nesting of the input (see nested_rows); labelled rank 2 / 3 only
+        match guarded(|| (ct.from_nested)(&code).map(|a| a.iter_vals())) {
+            Some(Some(v)) => Ok(v),
+            Some(None) => return "BAD arr_nested on a family / rank without from_multi_iter".into(),
+            None => Ok(vec![PANIC]),
+        }
     } else if c.op == "arr_adapt" {
         // numbers: kind, k (see drain_indexes)
         if code.len() != 2 {
